@@ -1833,6 +1833,84 @@ pub proof fn lemma_nocov_init<P: Prefix, L, R>(tl: Seq<Node<P, L>>, tr: Seq<Node
     }
 }
 
+/// the popped entry e delivers its left node exactly when that node stores a value and the right view does not store the key
+pub open spec fn d_selects<P: Prefix, L, R>(tl: Seq<Node<P, L>>, tr: Seq<Node<P, R>>, e: Ent) -> bool {
+    ent_l(e).is_some() && tl[ent_l(e).unwrap() as int].value.is_some() && !(ent_r(e).is_some() && tr[ent_r(e).unwrap() as int].value.is_some())
+}
+
+/// [C07] from the stack step to the selection: the popped key is delivered iff it is selected
+pub proof fn lemma_d_item<P: Prefix, L, R>(tl: Seq<Node<P, L>>, tr: Seq<Node<P, R>>, xa: Seq<bool>, xb: Seq<bool>, cov: bool, es0: Seq<Ent>, esb: Seq<Ent>, es2: Seq<Ent>)
+    requires
+        ss_ok(tl, tr, xa, xb, esb), esb.len() > 0,
+        same_d(tl, tr, xa, xb, cov, es0, esb),
+        yields_l(tl, tr, xa, esb, es2, ent_key(tl, tr, esb.last())),
+        cov ==> nocov_above(tr, xb, ent_key(tl, tr, esb.last())),
+    ensures
+        d_selects(tl, tr, esb.last()) ==> yields_d(tl, tr, xa, xb, cov, es0, es2, ent_key(tl, tr, esb.last()))
+            && dsel(tl, tr, xa, xb, cov, es0, ent_l(esb.last()).unwrap() as int) && kb(tl, ent_l(esb.last()).unwrap() as int) =~= ent_key(tl, tr, esb.last())
+            && !stored_in(tr, xb, ent_key(tl, tr, esb.last())),
+        !d_selects(tl, tr, esb.last()) ==> same_d(tl, tr, xa, xb, cov, es0, es2),
+        ent_l(esb.last()).is_some() ==> ent_l(esb.last()).unwrap() < tl.len(),
+        ent_r(esb.last()).is_some() ==> ent_r(esb.last()).unwrap() < tr.len(),
+{
+    let e = esb.last();
+    let x = ent_key(tl, tr, e);
+    assert(ent_ok(tl, tr, xa, xb, e)) by { reveal(ents_ok); assert(esb[esb.len() - 1] == e); }
+    lemma_ent_at(tl, tr, xa, xb, e);
+    lemma_pre_refl(x);
+    assert(esb[esb.len() - 1] == e);
+    assert(kcov(tl, tr, esb, x));
+    // the right view stores x exactly when the entry's right node does
+    let bst = ent_r(e).is_some() && tr[ent_r(e).unwrap() as int].value.is_some();
+    if bst { assert(tlive(tr).contains(ent_r(e).unwrap() as int)); assert(stored_in(tr, xb, x)); }
+    assert(stored_in(tr, xb, x) == bst);
+    if cov {
+        lemma_pre_refl(x);
+        assert(covered_in(tr, xb, x) == bst) by {
+            if covered_in(tr, xb, x) {
+                let m = choose|m: int| #![trigger tlive(tr).contains(m)] vin(tr, xb, m) && pre(kb(tr, m), x) && tr[m].value.is_some();
+                assert(kb(tr, m) =~= x);
+            }
+            if bst { assert(pre(kb(tr, ent_r(e).unwrap() as int), x)); }
+        }
+    }
+    assert(excl(tr, xb, cov, x) == bst);
+    if d_selects(tl, tr, e) {
+        let l = ent_l(e).unwrap() as int;
+        assert(tlive(tl).contains(l));
+        assert(rem_l(tl, tr, xa, esb, l));
+        assert(dsel(tl, tr, xa, xb, cov, esb, l) && dsel(tl, tr, xa, xb, cov, es0, l));
+        assert forall|n: int| #![trigger tlive(tl).contains(n)] dsel(tl, tr, xa, xb, cov, es0, n) && !(kb(tl, n) =~= x) implies lex_lt(x, kb(tl, n)) by { assert(dsel(tl, tr, xa, xb, cov, esb, n)); }
+        assert forall|n: int| #![trigger tlive(tl).contains(n)] dsel(tl, tr, xa, xb, cov, es2, n) == (dsel(tl, tr, xa, xb, cov, es0, n) && !(kb(tl, n) =~= x)) by {
+            if tlive(tl).contains(n) { assert(dsel(tl, tr, xa, xb, cov, esb, n) == dsel(tl, tr, xa, xb, cov, es0, n)); }
+        }
+    } else {
+        assert forall|n: int| #![trigger tlive(tl).contains(n)] dsel(tl, tr, xa, xb, cov, es2, n) == dsel(tl, tr, xa, xb, cov, es0, n) by {
+            if tlive(tl).contains(n) {
+                assert(dsel(tl, tr, xa, xb, cov, esb, n) == dsel(tl, tr, xa, xb, cov, es0, n));
+                if vin(tl, xa, n) && kb(tl, n) =~= x { assert(ent_l(e).is_some() && ent_l(e).unwrap() as int == n); }
+            }
+        }
+    }
+}
+
+/// [C07] covering difference: dropping an entry whose key is stored in the right view loses no selected entry
+pub proof fn lemma_cd_skip_sel<P: Prefix, L, R>(tl: Seq<Node<P, L>>, tr: Seq<Node<P, R>>, xa: Seq<bool>, xb: Seq<bool>, es0: Seq<Ent>, esb: Seq<Ent>, es2: Seq<Ent>, x: Seq<bool>)
+    requires
+        same_d(tl, tr, xa, xb, true, es0, esb),
+        stored_in(tr, xb, x),
+        forall|n: int| #![trigger tlive(tl).contains(n)] rem_l(tl, tr, xa, es2, n) == (rem_l(tl, tr, xa, esb, n) && !pre(x, kb(tl, n))),
+    ensures same_d(tl, tr, xa, xb, true, es0, es2)
+{
+    let m = choose|m: int| #![trigger tlive(tr).contains(m)] vin(tr, xb, m) && kb(tr, m) =~= x && tr[m].value.is_some();
+    assert forall|n: int| #![trigger tlive(tl).contains(n)] dsel(tl, tr, xa, xb, true, es2, n) == dsel(tl, tr, xa, xb, true, es0, n) by {
+        if tlive(tl).contains(n) {
+            assert(dsel(tl, tr, xa, xb, true, esb, n) == dsel(tl, tr, xa, xb, true, es0, n));
+            if pre(x, kb(tl, n)) { assert(pre(kb(tr, m), kb(tl, n))); assert(covered_in(tr, xb, kb(tl, n))); }
+        }
+    }
+}
+
 // ---- one-sided descent, mirrored: the right view's node r is strictly above the left view's node l (entry FirstR(l, r)) ----
 // (mechanical mirror image of the lemma_fl_* family, generated by tools/mirror_setops.py)
 
